@@ -289,3 +289,57 @@ pub fn long_histories(acc: &mut Acc) -> Value {
     acc.nontrivial += steps;
     json!({"engine": "C-long-histories", "algorithms": n, "histories": 3, "steps": steps})
 }
+
+/// Raw (unvalidated) hash texts: every Unicode scalar value at the start, in the middle and at the end
+/// of a raw value put in with `insert_raw`, then every read accessor of the typed value. None may
+/// panic; `decode` succeeds exactly for an even number of hex digits and then returns those bytes;
+/// `raw()`, `Deref` and `get_raw` give the text back; the text form is refused unless it is hex.
+pub fn raw_value_sweep(acc: &mut Acc) -> Value {
+    let a = crate::sweeps::for_all_scalars(|c, acc| {
+        for raw in [c.to_string(), format!("a{c}"), format!("0{c}0"), format!("{c}ff"), format!("0x{c}"), format!("ab{c}")] {
+            acc.evals += 1;
+            acc.calls += 6;
+            let case = json!({"engine": "checksum-raw", "raw": raw});
+            let want: Option<Vec<u8>> = if raw.len() % 2 == 0 && raw.bytes().all(|b| b.is_ascii_hexdigit()) { Some((0..raw.len() / 2).map(|i| u8::from_str_radix(&raw[2 * i..2 * i + 2], 16).unwrap()).collect()) } else { None };
+            let r = guarded(|| {
+                let mut ck = Checksum::default();
+                ck.insert_raw("Alg", raw.clone());
+                if ck.get_raw("alg") != Some(raw.as_str()) {
+                    acc.violate(Violation { prop: "C12", kind: "raw-get_raw".into(), case: case.clone(), detail: format!("get_raw gives {:?}", ck.get_raw("alg")) });
+                }
+                let got: Option<Vec<u8>> = ck.get::<Vec<u8>>("alg").ok().flatten();
+                if got != want {
+                    acc.violate(Violation { prop: "C12", kind: "raw-decode".into(), case: case.clone(), detail: format!("get::<Vec<u8>> gives {:?}, expected {:?}", got, want) });
+                }
+                match ck.get_value("alg") {
+                    None => acc.violate(Violation { prop: "C12", kind: "raw-get_value".into(), case: case.clone(), detail: "get_value gives None".into() }),
+                    Some(v) => {
+                        let d: Option<Vec<u8>> = v.decode::<Vec<u8>>().ok();
+                        let _ = v.decode::<[u8; 2]>();
+                        if v.raw() != raw || &*v != raw.as_str() || d != want {
+                            acc.violate(Violation { prop: "C12", kind: "raw-value".into(), case: case.clone(), detail: format!("raw() {:?}, deref {:?}, decode {:?}, expected {:?}", v.raw(), &*v, d, want) });
+                        }
+                    },
+                }
+                let entries: Vec<(String, String)> = ck.iter().map(|(a, v)| (a.to_owned(), v.raw().to_owned())).collect();
+                if entries != vec![("alg".to_owned(), raw.clone())] {
+                    acc.violate(Violation { prop: "C12", kind: "raw-iter".into(), case: case.clone(), detail: format!("iter() gives {:?}", entries) });
+                }
+                // the text form exists exactly when the raw value is hex
+                let text = purl::GenericPurlBuilder::new("t".to_owned(), "n").try_with_typed_qualifier(Some(ck)).ok().and_then(|b| b.parts.qualifiers.get("checksum").map(str::to_owned));
+                let want_text = want.as_ref().map(|_| format!("alg:{}", raw.to_ascii_lowercase()));
+                if text != want_text {
+                    acc.violate(Violation { prop: "C12", kind: "raw-text".into(), case: case.clone(), detail: format!("text form {:?}, expected {:?}", text, want_text) });
+                }
+                acc.sig(&(want.is_some(), raw.len().min(6)));
+            });
+            if let Err(m) = r {
+                acc.violate(Violation { prop: "C06", kind: "panic".into(), case, detail: format!("typed checksum with the raw value {:?}: {m}", raw) });
+            }
+            acc.nontrivial += 1;
+        }
+    });
+    let n = a.evals;
+    acc.merge(a);
+    json!({"engine": "E-sweep", "model": "checksum-raw-values", "scalar_values": crate::sweeps::N_SCALARS, "raw_value_cases": n})
+}
